@@ -13,7 +13,7 @@ import struct
 import sys
 from collections import Counter
 
-from . import common, rxrig, sockrun
+from . import vloop, common, rxrig, sockrun
 
 
 # ================================================================================ C06
@@ -239,6 +239,7 @@ def check_c06(tier: str) -> int:
                         ck.violation("client did not reconnect after a rejected frame", {
                             "kind": "corrupt-frame", "gen": gen, "trigger": {"what": "no-reconnect"}})
                         break
+                    vloop.log_debug(ck.evaluations % 2 == 0)      # the DEBUG-only frame dump is code under check too
                     rig.feed([bad])
                     ds, msgs, reset, unh = rig.take()
                     m_ds, m_alive, m_buf = rxrig.parse_model_stream(mr)
